@@ -224,7 +224,7 @@ def r10_3(ctx: Ctx):
                 why = f"sort direction `{norm(rev)}` is not a constant"
         elif canon(srt, defs) == tgt:
             status, why = VIOLATION, "keeps a prefix of the unsorted candidate list: not the best ones"
-    elif isinstance(v, ast.ListComp) and len(v.generators) == 1 and len(v.generators[0].ifs) == 1 and isinstance(v.generators[0].ifs[0], ast.Compare) and isinstance(v.generators[0].ifs[0].ops[0], (ast.Gt, ast.Lt)) and any(isinstance(x, ast.Call) and norm(x.func) == "sorted" for side in (v.generators[0].ifs[0].left, v.generators[0].ifs[0].comparators[0]) for x in ast.walk(ast.parse(canon(side, defs), mode="eval"))):
+    elif isinstance(v, ast.ListComp) and len(v.generators) == 1 and len(v.generators[0].ifs) == 1 and isinstance(v.generators[0].ifs[0], ast.Compare) and isinstance(v.generators[0].ifs[0].ops[0], (ast.Gt, ast.Lt)) and any(isinstance(x, ast.Call) and norm(x.func) == "sorted" for side in (v.generators[0].ifs[0].left, v.generators[0].ifs[0].comparators[0]) for x in ast.walk(__import__("hmslint.core", fromlist=["subst_expr"]).subst_expr(side, defs))):
         status, why = VIOLATION, f"`{norm(v)[:80]}` keeps the candidates STRICTLY better than a pivot of the sorted list: candidates tied with the pivot are dropped too, so fewer than min(limit, available) can survive"
     elif isinstance(v, ast.Subscript) and isinstance(v.slice, ast.Slice) and v.slice.upper is None and v.slice.lower is not None and isinstance(v.value, ast.Call) and norm(v.value.func) == "sorted":
         # sorted(...)[-limit:]  — the best `limit` of an ascending sort
